@@ -16,43 +16,37 @@ func CoerceList(v any) []any {
 		// already a slice no coercion required
 		vSlice = v
 	case []string:
-		if len(v) > 0 {
-			vSlice = []any{v[0]}
-		}
+		vSlice = anySlice(v)
 	case []json.Number:
-		if len(v) > 0 {
-			vSlice = []any{v[0]}
-		}
+		vSlice = anySlice(v)
 	case []bool:
-		if len(v) > 0 {
-			vSlice = []any{v[0]}
-		}
+		vSlice = anySlice(v)
 	case []map[string]any:
-		if len(v) > 0 {
-			vSlice = []any{v[0]}
-		}
+		vSlice = anySlice(v)
 	case []float64:
-		if len(v) > 0 {
-			vSlice = []any{v[0]}
-		}
+		vSlice = anySlice(v)
 	case []float32:
-		if len(v) > 0 {
-			vSlice = []any{v[0]}
-		}
+		vSlice = anySlice(v)
 	case []int:
-		if len(v) > 0 {
-			vSlice = []any{v[0]}
-		}
+		vSlice = anySlice(v)
 	case []int32:
-		if len(v) > 0 {
-			vSlice = []any{v[0]}
-		}
+		vSlice = anySlice(v)
 	case []int64:
-		if len(v) > 0 {
-			vSlice = []any{v[0]}
-		}
+		vSlice = anySlice(v)
 	default:
 		vSlice = []any{v}
 	}
 	return vSlice
+}
+
+// anySlice converts a typed list element by element (an empty one stays nil).
+func anySlice[T any](v []T) []any {
+	if len(v) == 0 {
+		return nil
+	}
+	out := make([]any, len(v))
+	for i := range v {
+		out[i] = v[i]
+	}
+	return out
 }
